@@ -98,6 +98,39 @@ pub const TOKEN_POOL: &[&str] = &[
     "addé", ".fillé", "é.fill", "x\u{301}", "\t", "\r", "\r\n", "\u{b}", "\u{c}", "\u{a0}", "#99999999999999999999", "xFFFFFFFFFFFFFFFFFFFF",
 ];
 
+/// Numbers at the limits of every integer width (2^7 .. 2^128, each -1 / +0 / +1), written as a
+/// bare digit string, with leading zeros, with a sign, and under every literal prefix.
+pub fn numeric_edges() -> &'static Vec<String> {
+    static EDGES: std::sync::OnceLock<Vec<String>> = std::sync::OnceLock::new();
+    EDGES.get_or_init(|| {
+        let mut out = Vec::new();
+        for bits in [7u32, 8, 15, 16, 31, 32, 63, 64, 127] {
+            for d in [-1i32, 0, 1] {
+                let v: u128 = if d < 0 { (1u128 << bits) - 1 } else { (1u128 << bits) + d as u128 };
+                out.push(format!("{v}"));
+                out.push(format!("000{v}"));
+                out.push(format!("-{v}"));
+                out.push(format!("#{v}"));
+                out.push(format!("#-{v}"));
+                out.push(format!("x{v:X}"));
+                out.push(format!("0x{v:x}"));
+                out.push(format!("x-{v:X}"));
+            }
+        }
+        out.push("340282366920938463463374607431768211456".into()); // 2^128
+        out.push("#340282366920938463463374607431768211456".into());
+        out.push("x100000000000000000000000000000000".into());
+        out.push("9".repeat(80));
+        out
+    })
+}
+
+/// The token pool of the generators: the fixed list plus the numeric edges.
+fn pool() -> &'static Vec<String> {
+    static POOL: std::sync::OnceLock<Vec<String>> = std::sync::OnceLock::new();
+    POOL.get_or_init(|| TOKEN_POOL.iter().map(|s| s.to_string()).chain(numeric_edges().iter().cloned()).collect())
+}
+
 const INSERT_CHARS: &[char] = &['é', 'ß', '日', '€', '😀', '\u{301}', '\u{7FF}', '\u{800}', '\u{FFFF}', '\u{10000}', '\u{10FFFF}', '\0', ';', '"', '\\', '.', '#', 'x', '-', ',', ':', '\n', '\r'];
 
 #[derive(Clone, Debug, Serialize, Deserialize)]
@@ -118,7 +151,7 @@ pub enum Mutation {
 }
 
 fn mutation() -> impl Strategy<Value = Mutation> {
-    prop_oneof![
+    crate::pick![
         2 => any::<u16>().prop_map(Mutation::Delete),
         1 => any::<u16>().prop_map(Mutation::Duplicate),
         1 => (any::<u16>(), any::<u16>()).prop_map(|(a, b)| Mutation::Swap(a, b)),
@@ -210,11 +243,11 @@ fn apply(tokens: Vec<String>, muts: &[Mutation]) -> (String, bool) {
             }
             Mutation::Replace(a, b) => {
                 let i = idx(*a, n);
-                toks[i] = TOKEN_POOL[idx(*b, TOKEN_POOL.len())].to_string();
+                toks[i] = pool()[idx(*b, pool().len())].clone();
                 changed = true;
             }
             Mutation::InsertTok(a, b) => {
-                toks.insert(idx(*a, n + 1), TOKEN_POOL[idx(*b, TOKEN_POOL.len())].to_string());
+                toks.insert(idx(*a, n + 1), pool()[idx(*b, pool().len())].clone());
                 changed = true;
             }
             Mutation::Abut(a) => {
@@ -271,7 +304,7 @@ fn soup_cases() -> impl Strategy<Value = Case> {
     (prop::collection::vec((any::<u16>(), 0u8..8), 1..14), any::<bool>()).prop_map(|(sel, stack)| {
         let mut text = String::new();
         for (s, sep) in sel {
-            text.push_str(TOKEN_POOL[idx(s, TOKEN_POOL.len())]);
+            text.push_str(&pool()[idx(s, pool().len())]);
             text.push_str([" ", "\n", ",", "", " ", "\t", ":", " "][sep as usize]);
         }
         Case { text, stack, mutated: true, kind: "token-soup".into() }
@@ -319,6 +352,28 @@ fn char_positions(ctx: &Ctx, rep: &mut Report) {
         }
     }
     rep.exhaustive.push("2/3/4-byte, combining and NUL characters inserted at every character position of 24 representative statements".into());
+}
+
+/// Every numeric edge token in every operand position (and in label position) of representative
+/// statements.
+fn numeric_positions(ctx: &Ctx, rep: &mut Report) {
+    let frames = ["add r0 r0 @", "and r1 r1 @", "ldr r0 r1 @", "br @", "ld r2 @", "lea r0 @", "jsr @", "trap @", ".orig @", ".fill @", ".blkw @", "@ add r0 r0 #1", "@: halt\nbr @", "foo @", "add @ r0 r0", "push @", "call @", ".stringz @", "@"];
+    let mut n = 0u64;
+    for f in frames {
+        for t in numeric_edges() {
+            n += 1;
+            if !ctx.mine(n) {
+                continue;
+            }
+            let case = Case { text: f.replace('@', t), stack: n % 2 == 0, mutated: true, kind: "numeric-edge-in-every-position".into() };
+            judge_one(ctx, rep, &case, &mut |c| {
+                let mut o = judge_case(c);
+                o.label("numeric-edges");
+                o
+            });
+        }
+    }
+    rep.exhaustive.push(format!("{} numeric edge tokens (limits of every integer width in every spelling) in {} statement positions", numeric_edges().len(), frames.len()));
 }
 
 fn fixed_list(ctx: &Ctx, rep: &mut Report) {
@@ -390,8 +445,8 @@ impl Prop for C05 {
         "C05"
     }
     fn rule(&self) -> &'static str {
-        "Texts: (a) valid generated programs with 1-4 token-level mutations (delete, duplicate, swap, replace/insert a token of any kind from a 170-entry pool incl. directives, strings, edge literals, junk), abutting, character insertion/deletion and truncation; \
-         (b) token soup from the pool; (c) arbitrary unicode strings; (d) multi-byte / combining / NUL characters at every character position of 24 representative statements (enumerated); (e) a fixed list of lone prefixes, directives in operand position and size extremes \
+        "Texts: (a) valid generated programs with 1-4 token-level mutations (delete, duplicate, swap, replace/insert a token of any kind from a ~400-entry pool incl. directives, strings, edge literals, junk and numbers at the limits of every integer width 2^7..2^128 in every spelling), abutting, character insertion/deletion and truncation; \
+         (b) token soup from the pool; (c) arbitrary unicode strings; (d) multi-byte / combining / NUL characters at every character position of 24 representative statements (enumerated); (e) every numeric edge token in every operand / label position of 19 statement frames (enumerated); (f) a fixed list of lone prefixes, directives in operand position and size extremes \
          (.blkw xFFFF + statements, label distances 0x7FFE..0xFFFD in both directions, 70,000 statements, 66,000 labels, 70,000-character strings/tokens). thorough adds libFuzzer campaigns (fuzz/asm_total). \
          Oracle: no panic in lex/parse/backpatch/emit/render under debug assertions + overflow checks (and release in thorough); every diagnostic label span denotes a substring of the source (in bounds, on character boundaries); the diagnostic is non-empty. \
          Non-trivial: at least one mutation changed the text and it contains a token. Distinct = hash(text, flag)."
@@ -405,6 +460,7 @@ impl Prop for C05 {
     fn run_worker(&self, ctx: &Ctx, rep: &mut Report) {
         fixed_list(ctx, rep);
         char_positions(ctx, rep);
+        numeric_positions(ctx, rep);
         let n = ctx.share(ctx.tier.pick(60_000, 800_000));
         drive(ctx, rep, "mutated", mutated_cases(), n, &mut |c: &Case| {
             let mut o = judge_case(c);
@@ -423,6 +479,9 @@ impl Prop for C05 {
             o.label("arbitrary-string");
             o
         });
+    }
+    fn fuzz_strategy(&self) -> Option<BoxedStrategy<Value>> {
+        Some(crate::fuzzmode::jv(crate::pick![3 => mutated_cases(), 2 => soup_cases(), 1 => string_cases()]))
     }
     fn replay(&self, _ctx: &Ctx, case: &Value) -> Obs {
         match serde_json::from_value::<Case>(case.clone()) {
